@@ -79,7 +79,16 @@ func vh_C13_Timeout() {
 	vfAssume(slow < 0) // negative messages are the slow / unanswered ones
 	var r int
 	var err error
-	if !vfNoPanic("nopanic-ask", func() { r, err = AskNewGenerics[int, int](slow).AskOnceWithTimeout(actor, timeout) }) {
+	var ask *AskDef[int, int]
+	switch vfChoose("ask-constructor", 3) {
+	case 0:
+		ask = AskNewGenerics[int, int](slow)
+	case 1:
+		ask = AskNewByOptionsGenerics[int, int](slow, make(chan int)) // the caller's own, unbuffered reply channel
+	default:
+		ask = AskNewByOptionsGenerics[int, int](slow, make(chan int, 1))
+	}
+	if !vfNoPanic("nopanic-ask", func() { r, err = ask.AskOnceWithTimeout(actor, timeout) }) {
 		return
 	}
 	if mode == 0 {
